@@ -466,10 +466,18 @@ def equivalent(f1, f2, limit=300000):
         n *= len(dom)
         if n > limit:
             return None
+    sat1 = sat2 = False
     for combo in itertools.product(*doms):
         env = dict(zip(keys, combo))
-        if _eval(f1, env) != _eval(f2, env):
+        v1, v2 = _eval(f1, env), _eval(f2, env)
+        sat1 |= v1
+        sat2 |= v2
+        if v1 != v2:
             return False
+    if not (sat1 and sat2):
+        # operand descriptions are coarser than the program (two different bytes of a buffer can share one description): a
+        # condition that looks contradictory under them says nothing, and "both unsatisfiable" must not count as agreement
+        return None
     return True
 
 
